@@ -324,7 +324,7 @@ def r5_exceptions(rep, ctx):
     rep.check(len(calls) == 1, "C12.R5", "IsValid:calls-CheckValidity", "IsValid decides through CheckValidity", "IsValid does not call CheckValidity exactly once", fn=iv)
 
 
-def r6_registration(rep, ctx):
+def r6_registration(rep, ctx, RID="C12.R6"):
     m = ctx.model
     fn = m.method("UnitDatabase", "AddCategory")
     cfg = CFG(fn.node)
@@ -336,7 +336,7 @@ def r6_registration(rep, ctx):
     VARS = ("default_value", "min_value", "max_value", "is_min_exclusive", "is_max_exclusive")
     kw = {k.arg: k.value for k in ctor[0].keywords}
     for v in VARS:
-        rep.check(isinstance(kw.get(v), ast.Name) and kw[v].id == v, "C12.R6", "AddCategory:stores:%s" % v, "the CategoryInfo stores the local %s" % v, "CategoryInfo(%s=%s)" % (v, ast.unparse(kw[v]) if v in kw else None), node=ctor[0], fn=fn)
+        rep.check(isinstance(kw.get(v), ast.Name) and kw[v].id == v, RID, "AddCategory:stores:%s" % v, "the CategoryInfo stores the local %s" % v, "CategoryInfo(%s=%s)" % (v, ast.unparse(kw[v]) if v in kw else None), node=ctor[0], fn=fn)
     defs = {v: [] for v in VARS}
     for st in own_statements(fn.node):
         if isinstance(st, (ast.Assign, ast.AugAssign, ast.AnnAssign)):
@@ -349,12 +349,12 @@ def r6_registration(rep, ctx):
     for a in own_nodes(fn.node):
         if isinstance(a, ast.Assert) and isinstance(a.test, ast.Compare) and isinstance(a.test.left, ast.Name) and a.test.left.id == "default_value":
             asserts.append(a)
-    rep.floor("C12.R6", "default-value assertions", len(asserts), 4)
+    rep.floor(RID, "default-value assertions", len(asserts), 4)
     # (1) no re-definition of the asserted variables between an assertion and the construction
     for a in asserts:
         after = cfg.reach(cfg.node_of(a))
         redefs = [st for v in VARS for st in defs[v] if cfg.node_of(st) in after and C in cfg.reach(cfg.node_of(st))]
-        rep.check(not redefs, "C12.R6", "AddCategory:final-values:%s" % norm(ast.unparse(a.test)), "the assertion sees the values that are stored (no later re-definition)",
+        rep.check(not redefs, RID, "AddCategory:final-values:%s" % norm(ast.unparse(a.test)), "the assertion sees the values that are stored (no later re-definition)",
                   "after `assert %s` the variable(s) %s are re-defined (line %s) before the category is built: the stored default/limits were never checked against each other"
                   % (ast.unparse(a.test), sorted({t.id for st in redefs for t in ast.walk(st) if isinstance(t, ast.Name) and isinstance(t.ctx, ast.Store) and t.id in VARS}), sorted(st.lineno for st in redefs)), node=a, fn=fn)
     # (2) every given or inherited default reaches the assertions
@@ -368,7 +368,7 @@ def r6_registration(rep, ctx):
             if all(cfg.node_of(a) in reach_given for a in asserts) and asserts:
                 validating = (nid, given_lab)
     if validating is None:
-        rep.bad("C12.R6", "AddCategory:validating-branch", "no `default_value is None` test separates derived defaults from given ones with the assertions on the 'given' side", fn=fn)
+        rep.bad(RID, "AddCategory:validating-branch", "no `default_value is None` test separates derived defaults from given ones with the assertions on the 'given' side", fn=fn)
         return
     T, given_lab = validating
     def derived(st):
@@ -380,7 +380,7 @@ def r6_registration(rep, ctx):
     for what, d in unsafe:
         others = set(dv_nodes) - {d}
         r = cfg.reach(d, avoid=others, avoid_edges=given_edges)
-        rep.check(C not in r, "C12.R6", "AddCategory:validated:%s" % what[:60], "a default coming from %s reaches the category only through the limit assertions" % what,
+        rep.check(C not in r, RID, "AddCategory:validated:%s" % what[:60], "a default coming from %s reaches the category only through the limit assertions" % what,
                   "a default coming from %s can reach CategoryInfo(...) without passing the limit assertions: a category whose default violates its own limits is registered" % what, node=ctor[0], fn=fn,
                   facts={"entry": fn.qual, "offending_exit": "CategoryInfo(...) at line %d" % ctor[0].lineno})
     # (3) inside the validating branch each limit is asserted unless it is None
@@ -393,19 +393,19 @@ def r6_registration(rep, ctx):
                 lab = "F" if isinstance(e.ops[0], ast.IsNot) else "T"
                 none_edges |= {(nid, b, l) for (b, l) in cfg.succ[nid] if l == lab}
         r = cfg.reach(T, avoid=a_nodes, avoid_edges=none_edges, start_edges={given_lab})
-        rep.check(bool(a_nodes) and C not in r, "C12.R6", "AddCategory:asserts-%s" % kind, "a given default is asserted against the %s limit unless there is none" % kind,
+        rep.check(bool(a_nodes) and C not in r, RID, "AddCategory:asserts-%s" % kind, "a given default is asserted against the %s limit unless there is none" % kind,
                   "a given default can reach CategoryInfo(...) without being asserted against an existing %s limit" % kind, fn=fn)
     # (4) derived defaults: exclusive limits must-raise, min before max
     for nid in cfg.nodes("test"):
         e = cfg.ast[nid]
         if ast.unparse(e) in ("is_min_exclusive", "is_max_exclusive") and nid in cfg.reach(T, start_edges={"T" if given_lab == "F" else "F"}):
-            rep.check(cfg.must_raise_from([(nid, "T")]), "C12.R6", "AddCategory:exclusive-needs-default:%s" % ast.unparse(e), "an exclusive limit without a given default must-raise", "with %s and no default value a default equal to the limit is derived" % ast.unparse(e), fn=fn)
+            rep.check(cfg.must_raise_from([(nid, "T")]), RID, "AddCategory:exclusive-needs-default:%s" % ast.unparse(e), "an exclusive limit without a given default must-raise", "with %s and no default value a default equal to the limit is derived" % ast.unparse(e), fn=fn)
     for st in defs["default_value"]:
         if isinstance(st.value, ast.Name) and st.value.id in ("min_value", "max_value"):
             kind = st.value.id[:3]
             dom = cfg.dominating_edges(cfg.node_of(st))
             ok = any(cfg.kind[nid] == "test" and ast.unparse(cfg.ast[nid]) == "is_%s_exclusive" % kind and lab == "F" for (nid, lab) in dom)
-            rep.check(ok, "C12.R6", "AddCategory:derived-from-inclusive-%s" % kind, "a default is derived from the %s limit only when that limit is inclusive" % kind,
+            rep.check(ok, RID, "AddCategory:derived-from-inclusive-%s" % kind, "a default is derived from the %s limit only when that limit is inclusive" % kind,
                       "`%s` is not dominated by 'not is_%s_exclusive': with an exclusive %s limit the derived default equals the limit and violates it" % (norm(ast.unparse(st)), kind, kind), node=st, fn=fn)
     # (5) default unit outside the quantity type must-raise before the store
     store = [st for st in own_statements(fn.node) if isinstance(st, ast.Assign) and isinstance(st.targets[0], ast.Subscript) and "categories_to_quantity_types" in ast.unparse(st.targets[0])]
@@ -415,4 +415,4 @@ def r6_registration(rep, ctx):
         if isinstance(e, ast.Compare) and isinstance(e.ops[0], (ast.NotIn, ast.In)) and isinstance(e.left, ast.Name) and e.left.id == "default_unit" and "quantity_units" in ast.unparse(e.comparators[0]):
             lab = "T" if isinstance(e.ops[0], ast.NotIn) else "F"
             ok = cfg.must_raise_from([(nid, lab)])
-    rep.check(ok and bool(store), "C12.R6", "AddCategory:default-unit-in-type", "a given default unit that is not a unit of the quantity type must-raise before the category is stored", "a default unit outside the quantity type is accepted", fn=fn)
+    rep.check(ok and bool(store), RID, "AddCategory:default-unit-in-type", "a given default unit that is not a unit of the quantity type must-raise before the category is stored", "a default unit outside the quantity type is accepted", fn=fn)
